@@ -114,6 +114,18 @@ Theorem C06_lzma1_raw_total : forall input uncomp lc lp pb dict preset sizes all
 Proof. exact lzma1_raw_total. Qed.
 Print Assumptions C06_lzma1_raw_total.
 
+(* new_with_props: any properties byte, any dict_size *)
+Theorem C06_lzma1_props_total : forall input uncomp props dict preset sizes all fuel,
+  0 <= props -> 0 <= uncomp -> preset_bytes preset -> sizes_ok all ->
+  (ra_fuel sizes all (8000 * zlen input) <= fuel)%nat ->
+  match lzma1_construct1 input uncomp props dict preset with
+  | Ok s0 => total1 (lzma1_read_all fuel s0 sizes all []) (8000 * zlen input)
+  | Err _ => True
+  | _ => False
+  end.
+Proof. exact lzma1_props_total. Qed.
+Print Assumptions C06_lzma1_props_total.
+
 Theorem C06_lzma1_hdr_total : forall input mem preset sizes all fuel,
   bytes_ok input = true -> preset_bytes preset -> sizes_ok all ->
   (ra_fuel sizes all (8000 * zlen input) <= fuel)%nat ->
@@ -124,6 +136,12 @@ Theorem C06_lzma1_hdr_total : forall input mem preset sizes all fuel,
   end.
 Proof. exact lzma1_hdr_total. Qed.
 Print Assumptions C06_lzma1_hdr_total.
+
+(* the hypothesis [sizes_ok] is needed, and is about the driver of the read history, not about the
+   reader: a history of zero-size buffers only never reaches a call that could report the end *)
+Theorem C06_zero_sizes_need_fuel : forall fuel s acc, lzma1_read_all fuel s [0] [0] acc = Fuel.
+Proof. exact read_all_zero_sizes_fuel. Qed.
+Print Assumptions C06_zero_sizes_need_fuel.
 
 (* ---------------------------------------------------------------------------------------------
    LZMA2Reader *)
@@ -176,6 +194,12 @@ Theorem C06_lzip_payload_dec_shr : forall d s, shrk 0 s (lzip_payload_dec d s).
 Proof. exact lzip_payload_dec_shr. Qed.
 Print Assumptions C06_lzip_payload_dec_shr.
 
+(* any larger budget of read() calls does as well *)
+Theorem C06_lzip_payload_dec_n_shr : forall calls d s, (64 + 16 * length s <= calls)%nat ->
+  shrk 0 s (lzip_payload_dec_n calls d s).
+Proof. exact lzip_payload_dec_n_shr. Qed.
+Print Assumptions C06_lzip_payload_dec_n_shr.
+
 Theorem C06_lzip_decode_c_total : forall fx f, total (lz_decode_c fx f).
 Proof. exact lz_decode_c_total. Qed.
 Print Assumptions C06_lzip_decode_c_total.
@@ -185,6 +209,11 @@ Print Assumptions C06_lzip_decode_c_total.
 Theorem C06_lzma2_payload_dec_shrb : forall d s, bytes_ok s = true -> shrkb s (lzma2_payload_dec d s).
 Proof. exact lzma2_payload_dec_shrb. Qed.
 Print Assumptions C06_lzma2_payload_dec_shrb.
+
+Theorem C06_lzma2_payload_dec_n_shrb : forall calls d s, bytes_ok s = true -> (2 + 171 * length s <= calls)%nat ->
+  shrkb s (lzma2_payload_dec_n calls d s).
+Proof. exact lzma2_payload_dec_n_shrb. Qed.
+Print Assumptions C06_lzma2_payload_dec_n_shrb.
 
 (* XZReader (stream / block / index / footer / padding parsing, Delta readers, LZMA2Reader) on
    every byte string; fx11: the F11 repair, cf. C06_xz_index_alloc_refuted *)
@@ -205,7 +234,9 @@ Example C06_lzma1_hostile_evaluated :
   show1 (lzma1_construct2 zeros5 U64_MAX 3 0 2 4096 None) 60 [7; 0; 3] = Err E_UNEXPECTED_EOF /\
   show1 (lzma1_construct2 zeros5 3 8 4 4 0 (Some [1; 2; 3])) 60 [0; 2] = Err E_UNEXPECTED_EOF /\
   show1 (lzma1_construct2 rnd U64_MAX 9 0 2 4096 None) 60 [7] = Err (100 + E_INVALID_INPUT) /\
-  show1 (lzma1_construct2 rnd U64_MAX 3 0 2 4294967295 None) 60 [7] = Err (100 + E_INVALID_INPUT).
+  show1 (lzma1_construct2 rnd U64_MAX 3 0 2 4294967295 None) 60 [7] = Err (100 + E_INVALID_INPUT) /\
+  show1 (lzma1_construct1 ones U64_MAX 224 0 None) 60 [7; 0; 3] = Err E_OTHER /\
+  show1 (lzma1_construct1 ones U64_MAX 225 0 None) 60 [7; 0; 3] = Err (100 + E_INVALID_INPUT).
 Proof. vm_compute. repeat split; reflexivity. Qed.
 
 (* the .lzma header: random stream behind a valid header; props = 225; dict = 0xFFFFFFFF;
@@ -241,6 +272,16 @@ Example C06_lzma1_hdr_instance : forall fuel,
   end.
 Proof.
   intros fuel input Hf. apply C06_lzma1_hdr_total; [reflexivity | reflexivity | exact sizes_703 | exact Hf].
+Qed.
+
+Example C06_lzma1_props_instance : forall fuel, (ra_fuel [7; 0; 3]%Z [7; 0; 3]%Z (8000 * zlen ones) <= fuel)%nat ->
+  match lzma1_construct1 ones U64_MAX 224 0 None with
+  | Ok s0 => total1 (lzma1_read_all fuel s0 [7; 0; 3] [7; 0; 3] []) (8000 * zlen ones)
+  | Err _ => True
+  | _ => False
+  end.
+Proof.
+  intros fuel Hf. apply C06_lzma1_props_total; [lia | unfold U64_MAX; lia | exact I | exact sizes_703 | exact Hf].
 Qed.
 
 (* the state after construction on random bytes satisfies the invariant, and the first read() on it
@@ -298,6 +339,16 @@ Proof.
   unfold lzma2_new, lzma2_get_dict_size in Hn. cbn [obind] in Hn. inversion Hn; subst s0.
   split; [reflexivity|]. split; vm_compute; reflexivity.
 Qed.
+
+(* why the LZMA2 statements ask for a byte string: the model copies source elements into the
+   dictionary (stored chunk) and indexes the literal tables with them; an element 1000 - not a u8,
+   impossible in the Rust code - lands outside the table (the model's Panic 21 = slice index) *)
+Example C06_lzma2_model_needs_bytes :
+  match lzma2_new [1; 0; 0; 1000; 192; 0; 0; 0; 4; 0; 0; 0; 0; 0; 0] 4096 None with
+  | Ok s0 => match lzma2_read s0 5 with Panic e => e =? 21 | _ => false end
+  | _ => false
+  end = true.
+Proof. vm_compute. reflexivity. Qed.
 
 (* containers: LZIP header + hostile LZMA stream; XZ stream header + random bytes; the hostile index *)
 Example C06_containers_hostile_evaluated :
